@@ -367,8 +367,16 @@ theorem groupsEval_single (cfg : Cfg) (inits : List DVal) (argv : List Word) :
 
 /-- The group and the single handler agree: both accept and the destinations read through the group
     (`groupDests`, in the order of the merged configuration) carry the argument states of the single
-    handler; or both reject — with the same exception class, except that an unknown argument is a
-    `std::invalid_argument` for `Handler` and a `std::runtime_error` for `Groups`. -/
+    handler; or both reject — with the same exception class, or with `std::invalid_argument` from the
+    single handler and `std::runtime_error` from the group.
+    The exception is there for the unknown argument (`std::invalid_argument` for `Handler`,
+    `std::runtime_error` for `Groups`), but the relation is COARSER than that: it identifies EVERY
+    `invalid_argument` of the single handler with a `runtime_error` of the group, whatever its cause
+    (e.g. the malformed typed key `---x`, word `-----x`, refused by `wordKey`; `hasIntersection` /
+    `compareValue` on unsuited destinations): a group that reported `---x` as `runtime_error` would
+    satisfy `GroupAgrees`.  That the pair occurs only at the unknown-argument refusal of `iterateLoop`
+    is NOT part of this relation nor of `group_agrees`; it is the separate theorem `group_refusal`
+    (Lemmas/GroupsRefusal.lean; Props: `C08_group_exceptions_partial`). -/
 def GroupAgrees (single : Res HState) (group : Res (List (ArgDef × ArgSt))) : Prop :=
   match single, group with
   | .ok H, .ok ds => ds.map (·.2) = H.args
